@@ -44,6 +44,15 @@ TOL = 1e-12
 def _jax():
     import jax
     jax.config.update("jax_enable_x64", True)
+    # optional persistent XLA cache (pure speed-up: hundreds of tiny kernels are compiled per run; content-addressed)
+    try:
+        d = os.path.join(os.environ.get("TMPDIR", "/tmp"), "nifty_verif_jaxcache")
+        os.makedirs(d, exist_ok=True)
+        jax.config.update("jax_compilation_cache_dir", d)
+        jax.config.update("jax_persistent_cache_min_compile_time_secs", 0.0)
+        jax.config.update("jax_persistent_cache_min_entry_size_bytes", 0)
+    except Exception:
+        pass
 
 
 # ---- building the real grids ------------------------------------------------------------------------------------
@@ -307,7 +316,21 @@ def oracle(case, grid=None):
             return None
     d = grid.depth
     nd = int(grid.at(0).ndim)
-    win = win or [3] * nd
+    if not win:
+        inner_nd = int(grid.grid.at(0).ndim) if spec["kind"] == "flat" else nd
+        lv = leaves(spec["grid"] if spec["kind"] == "flat" else spec)
+        win = []
+        for lf in lv:
+            win += [1] if lf["kind"] == "hp" else [3] * len(lf["shape0"])
+        assert len(win) == inner_nd
+    try:
+        return _oracle_levels(spec, grid, d, nd, win)
+    except Exception as e:
+        return (f"the real grid code raised {type(e).__name__} on a valid grid: {str(e)[:120]}",
+                dict(kind=spec["kind"], what="exception:" + type(e).__name__))
+
+
+def _oracle_levels(spec, grid, d, nd, win):
     vol_prev = None
     for level in range(d + 1):
         L = level_data(grid, level)
@@ -621,12 +644,16 @@ def check_specs(ctx, specs):
         rq = level_requests(j, ctx.rng)
         slices.append((len(reqs), len(reqs) + len(rq)))
         reqs += rq
-    outs = ctx.model(DRIVER, reqs) if reqs else []
+    mreqs, mreals = misc_requests(ctx)
+    outs = ctx.model(DRIVER, reqs + mreqs)
     for j, (a, b) in zip(jobs, slices):
         check_levels(ctx, j, outs[a:b])
+    for rq, re_, mo in zip(mreqs, mreals, outs[len(reqs):]):
+        ctx.compare(rq, re_, mo, note="C31 " + rq["op"], nontrivial=True)
+        ctx.stat("misc:" + rq["op"])
 
 
-def misc_checks(ctx):
+def misc_requests(ctx):
     """_parse_index (negative / out-of-range indices) and coord2index on arbitrary rationals (class F)"""
     _jax()
     from nifty.re.multi_grid.grid import GridAtLevel, OpenGridAtLevel
@@ -653,24 +680,20 @@ def misc_checks(ctx):
             continue
         reals.append(np.asarray(g.coord2index(np.array([keep]))).reshape(-1).astype(int).tolist())
         reqs.append(dict(op="coord2index", n=n, sh=sh, xs=[str(Fraction(x)) for x in keep]))
-    outs = ctx.model(DRIVER, reqs)
-    for rq, re_, mo in zip(reqs, reals, outs):
-        ctx.compare(rq, re_, mo, note="C31 " + rq["op"], nontrivial=True)
-        ctx.stat("misc:" + rq["op"])
+    return reqs, reals
 
 
 def run(ctx):
     _jax()
     specs = [c["spec"] for c in _corpus()] + FIXED
-    for _ in range(ctx.n(10, 250)):
+    for _ in range(ctx.n(8, 250)):
         specs.append(gen_spec(ctx.rng, ctx.quick))
     check_specs(ctx, specs)
-    misc_checks(ctx)
     ctx.extra["exhaustive_per_grid"] = "every index of every level of every generated grid"
 
 
 def search(ctx):
-    for _ in range(300):
+    for _ in range(40):
         spec = gen_spec(ctx.rng, True)
         r = oracle(dict(spec=spec))
         if r:
